@@ -25,11 +25,16 @@ VARIABLES st, hist, coneB, acts
 vars == <<st, hist, coneB, acts>>
 Vals == {I(x) : x \in 0..(K - 1)}
 PVals == {P(a, b) : a \in 0..(K - 1), b \in 0..1}
+NVals == {NR(n) : n \in {m \in 1..st.n : st.def[m].k \in {"var", "const", "map", "map2"} /\ st.scope[m] = 0
+                                          /\ ~(st.def[m].k = "var" /\ Tag(st.def[m].init) # "i")
+                                          /\ ~(st.def[m].k = "map" /\ ("ctl" \in DOMAIN st.def[m] \/ st.def[m].f \in {"dup", "pair0", "halfp", "swap"}))}}
 Nodes == 1..st.n
 Quiet == Ok(st) /\ st.status = "idle"
 \* user-visible nodes (not lhs_change, not created inside binds)
 Visible == {n \in Nodes : st.def[n].k # "lhs" /\ st.scope[n] = 0}
-IntNodes == {n \in Visible : st.def[n].k \in {"var", "const", "map", "map2", "fold", "main", "mwo"}
+IntNodes == {n \in Visible : st.def[n].k \in {"var", "const", "map", "map2", "fold", "main", "mwo", "expert"}
+                             /\ ~(st.def[n].k = "var" /\ Tag(st.def[n].init) = "n")
+                             /\ ~(st.def[n].k = "map" /\ "ctl" \in DOMAIN st.def[n])
                              /\ ~(st.def[n].k = "var" /\ Tag(st.def[n].init) = "p")
                              /\ ~(st.def[n].k = "map" /\ st.def[n].f \in {"dup", "pair0", "halfp", "swap"})
                              /\ ~(st.def[n].k = "map2" /\ st.def[n].f = "pair")
@@ -52,6 +57,15 @@ Create ==
         /\ \E v \in Vals : Do([a |-> "var", v |-> v], ApiVar(st, v))
      \/ /\ "pvar" \in Ctors /\ NumVars < MaxVars
         /\ \E v \in PVals : Do([a |-> "var", v |-> v], ApiVar(st, v))
+     \/ /\ "nvar" \in Ctors /\ NumVars < MaxVars
+        /\ \E v \in NVals : Do([a |-> "var", v |-> v], ApiVar(st, v))
+     \/ /\ "xjoin" \in Ctors /\ st.n + 2 <= MaxNodes
+        /\ \E n \in {m \in Nodes : st.def[m].k = "var" /\ Tag(st.def[m].init) = "n"} :
+             Do([a |-> "xjoin", in |-> n], ApiXJoin(st, n))
+     \/ /\ "xsum" \in Ctors /\ st.n + 2 <= MaxNodes
+        /\ \E sel \in {m \in IntNodes : st.def[m].k = "var"}, x \in IntNodes, y \in IntNodes :
+             sel # x /\ sel # y /\ K >= 3 /\
+             Do([a |-> "xsum", sel |-> sel, ins |-> <<x, y>>], ApiXSum(st, sel, <<x, y>>))
      \/ /\ "const" \in Ctors
         /\ \E v \in Vals : Do([a |-> "const", v |-> v], ApiConst(st, v))
      \/ /\ "map" \in Ctors
@@ -124,7 +138,8 @@ Write ==
   /\ Quiet /\ Budget
   /\ \E v \in {n \in Nodes : st.def[n].k = "var"}, op \in Ops :
        IF op \in {"set", "replace"}
-       THEN \E x \in (IF Tag(st.def[v].init) = "p" THEN PVals ELSE Vals) :
+       THEN \E x \in (IF Tag(st.def[v].init) = "p" THEN PVals
+                       ELSE IF Tag(st.def[v].init) = "n" THEN {y \in NVals : y[2] < v} ELSE Vals) :
               x # st.cell[v] /\
               Do([a |-> "write", n |-> v, op |-> op, x |-> x], VarWrite(st, v, op, x))
        ELSE Do([a |-> "write", n |-> v, op |-> op, x |-> NoVal], VarWrite(st, v, op, NoVal))
